@@ -1,6 +1,6 @@
 """C05 — discovery listeners see a truthful, strictly alternating history."""
 from models.discovery import DiscoveryOracle
-from sim.core import RES
+from .builders import Builder, INF_TTL, decode_index, sweep_count as _sc
 from .common import COMPONENTS, ASSUMPTIONS, rng, site_from_detail  # noqa: F401
 
 ID = "C05"
@@ -31,14 +31,13 @@ S1, S2 = 0x1111, 0x2222
 X, Y, Z, W = (S1, 1, 1, 0), (S1, 2, 1, 0), (S2, 1, 1, 5), (S1, 1, 2, 0)
 KEYS = [X, Y, Z, W]
 FILTERS = [[S1, 0xFFFF, 0xFF, 0xFFFFFFFF], [S1, 1, 1, 0xFFFFFFFF], [S2, 0xFFFF, 1, 5], [S1, 2, 0xFF, 0]]
-INF_TTL = 0xFFFFFF
 NSYM = 21
 SWEEP_LEN = {"quick": 3, "thorough": 4}
 RANDOM_RUNS = {"quick": 60000, "thorough": 3000000}
 
 
 def sweep_count(L):
-    return sum(NSYM**k for k in range(1, L + 1))
+    return _sc(NSYM, L)
 
 
 def budget(tier):
@@ -49,80 +48,14 @@ def EXHAUSTIVE(tier, complete):
     return {"alphabet": NSYM, "max_length": SWEEP_LEN[tier], "histories": sweep_count(SWEEP_LEN[tier]), "completed": complete}
 
 
-class Builder:
-    """interprets symbols into timed ops"""
-
-    GAP = 0.05
-
-    def __init__(self, cfg_extra=None):
-        self.ops = [{"k": "call", "t": 0.0, "f": "start"}, {"k": "call", "t": 0.0, "f": "watch", "a": [0, "L0"]}]
-        self.t = 0.1
-        self.deadlines = []
+class B(Builder):
+    def __init__(self):
+        super().__init__()
+        self.at0("start")
+        self.at0("watch", [0, "L0"])
         self.nl = 1
         self.flisteners = [(0, "L0")]
         self.alisteners = []
-        self.same = False
-        self.last_t = None
-        self.phase = "io"
-
-    def _now(self):
-        """instant of the op being emitted ('same' glues it to the previous op)"""
-        if self.same and self.last_t is not None:
-            self.t = self.last_t
-        self.same = False
-        return self.t
-
-    def _adv(self):
-        self.last_t = self.t
-        self.t = round(self.t + self.GAP, 9)
-
-    def offer(self, p, key, ttl, ch="m", extra=None):
-        e = [["offer", key[0], key[1], key[2], key[3], ttl]]
-        if extra:
-            e += extra
-        self._now()
-        self.ops.append({"k": "sd", "t": self.t, "p": p, "ch": ch, "e": e})
-        if ttl not in (0, INF_TTL):
-            self.deadlines.append(self.t + ttl)
-        self._adv()
-
-    def find(self, p, ch="m"):
-        self._now()
-        self.ops.append({"k": "sd", "t": self.t, "p": p, "ch": ch, "e": [["find", 0x7777, 0xFFFF, 0xFF, 0xFFFFFFFF, 3]]})
-        self._adv()
-
-    def preboot(self, p):
-        self._now()
-        self.same = False
-        self.ops.append({"k": "preboot", "t": self.t, "p": p})
-
-    def call(self, f, a=()):
-        self._now()
-        op = {"k": "call", "t": self.t, "f": f, "a": list(a)}
-        if self.phase != "io":
-            op["ph"] = self.phase
-        self.ops.append(op)
-        self._adv()
-
-    def next_deadline(self):
-        later = [d for d in self.deadlines if d > self.t - 1e-9]
-        return min(later) if later else None
-
-    def to_deadline(self, off):
-        d = self.next_deadline()
-        if d is None:
-            self.t = round(self.t + 0.3, 9)
-        else:
-            self.t = d + off
-        self.same = False
-
-    def busy_over_deadline(self):
-        d = self.next_deadline()
-        if d is None:
-            self.t = round(self.t + 0.3, 9)
-            return
-        self.ops.append({"k": "busy", "t": d - 0.001, "d": 0.002})
-        self.t = d + 0.0005
 
     def symbol(self, s):
         if s == 0:
@@ -149,56 +82,48 @@ class Builder:
         elif s == 9:
             self.call("conn_lost")
         elif s == 10:
-            name = f"L{self.nl}"
-            self.nl += 1
-            self.flisteners.append((0, name))
-            self.call("watch", [0, name])
+            self.watch(0)
         elif s == 11:
-            if self.flisteners:
-                fi, name = self.flisteners.pop(0)
-                self.call("unwatch", [fi, name])
+            self.unwatch(0)
         elif s == 12:
-            name = f"A{self.nl}"
-            self.nl += 1
-            self.alisteners.append(name)
-            self.call("watch_all", [name])
+            self.watch_all()
         elif s == 13:
-            if self.alisteners:
-                self.call("unwatch_all", [self.alisteners.pop(0)])
-        elif s == 14:
-            self.t = round(self.t + 0.3, 9)
-        elif s == 15:
-            self.to_deadline(-1e-4)
-        elif s == 16:
-            self.to_deadline(0.0)
-        elif s == 17:
-            self.to_deadline(1e-4)
-        elif s == 18:
-            self.to_deadline(-RES / 4)
-        elif s == 19:
-            self.busy_over_deadline()
-        elif s == 20:
-            # the next symbol happens at the same instant as the previous one
-            self.same = True
+            self.unwatch_all()
+        else:
+            # 14: +0.3s, 15: deadline-100us, 16: -res/4, 17: exact, 18: +100us, 19: busy across, 20: same instant
+            self.time_symbol({14: 0, 15: 1, 16: 2, 17: 3, 18: 5, 19: 6, 20: 7}[s])
+
+    def watch(self, fi):
+        name = f"L{self.nl}"
+        self.nl += 1
+        self.flisteners.append((fi, name))
+        self.call("watch", [fi, name])
+
+    def unwatch(self, pos):
+        if self.flisteners:
+            fi, name = self.flisteners.pop(pos % len(self.flisteners))
+            self.call("unwatch", [fi, name])
+
+    def watch_all(self):
+        name = f"A{self.nl}"
+        self.nl += 1
+        self.alisteners.append(name)
+        self.call("watch_all", [name])
+
+    def unwatch_all(self):
+        if self.alisteners:
+            self.call("unwatch_all", [self.alisteners.pop(0)])
 
     def plan(self, seed, cls, cfg=None):
         c = {"filters": FILTERS, "timings": {"INITIAL_DELAY_MIN": 0.0, "INITIAL_DELAY_MAX": 0.0, "REPETITIONS_MAX": 0}}
         if cfg:
             c.update(cfg)
-        until = max([self.t] + self.deadlines) + 1.0
-        return {"engine": "single", "property": ID, "class": cls, "seed": seed, "cfg": c, "ops": self.ops, "until": round(until, 6)}
+        return {"engine": "single", "property": ID, "class": cls, "seed": seed, "cfg": c, "ops": self.ops, "until": self.until()}
 
 
 def sweep_plan(i):
-    L = 1
-    while i >= NSYM**L:
-        i -= NSYM**L
-        L += 1
-    syms = []
-    for _ in range(L):
-        syms.append(i % NSYM)
-        i //= NSYM
-    b = Builder()
+    syms = decode_index(i, NSYM)
+    b = B()
     for s in syms:
         b.symbol(s)
     p = b.plan(0, "sweep")
@@ -208,35 +133,19 @@ def sweep_plan(i):
 
 def random_plan(seed, idx):
     r = rng(seed, ID, idx)
-    b = Builder()
-    n = r.randint(5, 40)
-    peers_used = set()
-    for _ in range(n):
-        # time step
-        u = r.random()
-        if u < 0.25:
-            b.same = True
-        elif u < 0.35:
-            b.t = round(b.t + 1e-4, 9)
-        elif u < 0.70:
-            b.t = round(b.t + r.uniform(0, 1.5), 6)
-        elif u < 0.95:
-            b.to_deadline(r.choice([-1e-4, -RES / 4, 0.0, RES / 4, 1e-4]))
-        else:
-            b.busy_over_deadline()
-        b.phase = r.choice(["io", "io", "io", "timer", "late"])
+    b = B()
+    for _ in range(r.randint(5, 40)):
+        b.random_time(r)
         k = r.random()
         p = r.randrange(3)
         key = r.choice(KEYS)
         ch = r.choice("mmu")
         if k < 0.40:
-            ttl = r.choice([1, 1, 2, 3, INF_TTL])
             extra = None
             if r.random() < 0.15:
                 k2 = r.choice(KEYS)
                 extra = [["offer", k2[0], k2[1], k2[2], k2[3], r.choice([0, 1, 2, INF_TTL])]]
-            b.offer(p, key, ttl, ch, extra)
-            peers_used.add(p)
+            b.offer(p, key, r.choice([1, 1, 2, 3, INF_TTL]), ch, extra)
         elif k < 0.50:
             b.offer(p, key, 0, ch)
         elif k < 0.65:
@@ -251,23 +160,13 @@ def random_plan(seed, idx):
         elif k < 0.67:
             b.call("conn_lost")
         elif k < 0.80:
-            fi = r.randrange(len(FILTERS))
-            name = f"L{b.nl}"
-            b.nl += 1
-            b.flisteners.append((fi, name))
-            b.call("watch", [fi, name])
+            b.watch(r.randrange(len(FILTERS)))
         elif k < 0.88:
-            if b.flisteners:
-                fi, name = b.flisteners.pop(r.randrange(len(b.flisteners)))
-                b.call("unwatch", [fi, name])
+            b.unwatch(r.randrange(8))
         elif k < 0.94:
-            name = f"A{b.nl}"
-            b.nl += 1
-            b.alisteners.append(name)
-            b.call("watch_all", [name])
+            b.watch_all()
         else:
-            if b.alisteners:
-                b.call("unwatch_all", [b.alisteners.pop(0)])
+            b.unwatch_all()
     return b.plan(seed, "random", {"sock_flip": r.choice([0, 0.5, 1.0])})
 
 
